@@ -786,7 +786,7 @@ func (dru *dirRepoUpload) Write(p []byte) (int, error) {
 	dru.mu.Lock()
 	defer dru.mu.Unlock()
 	if dru.w == nil {
-		return 0, fmt.Errorf("writer is closed")
+		return 0, fmt.Errorf("writer is closed, session %s ended%.0w", dru.sessionID, types.ErrNotFound)
 	}
 	// the digest only covers what reached the file: after a short write both still describe the same bytes
 	n, err := dru.fh.Write(p)
